@@ -20,3 +20,25 @@ EXTRA_NOTES.update({
  "C19": "Round 7: C19/ignored-first, C19/constructors-relay.",
  "C20": "Round 7: C20/readall-drains.",
 })
+
+# Rules added after the eighth seeded round.
+for _k, _v in {
+ "C01": "Round 8: C01/strip-whole, C01/found-multi-response.",
+ "C02": "Round 8: C02/mark-only-on-marker.",
+ "C03": "Round 8: C03/settings-writers, C03/no-foreign-append.",
+ "C04": "Round 8: C04/get-prompt-passthrough, C04/level-cache-writers.",
+ "C05": "Round 8: C05/found-driver-options.",
+ "C07": "Round 8: C07/globals-immutable, waitgroup-add rejects a package-level WaitGroup, C07/found-netconf-reader-lifecycle.",
+ "C08": "Round 8: the builder's buildPayload call dominates every message-returning path, C08/rpc-no-consume.",
+ "C09": "Round 8: C09/found-search-window, C09/found-transport-pipe.",
+ "C11": "Round 8: C11/log-args-untransformed, C11/found-platform-options.",
+ "C12": "Round 8: C12/pattern-not-overwritten.",
+ "C13": "Round 8: C13/found-search-window, C13/found-driver-options.",
+ "C14": "Round 8: C14/system rejects connection-sharing / verification-bypassing ssh options.",
+ "C16": "Round 8: C16/orderly-close, C16/found-eof-chain.",
+ "C17": "Round 8: C17/found-interactive, C17/always-fetches-prompt.",
+ "C18": "Round 8: C18/found-read-loop.",
+ "C19": "Round 8: C19/settings-writers, C19/definition-decoder.",
+ "C20": "Round 8: C20/waitgroup-local.",
+}.items():
+    EXTRA_NOTES[_k] = (EXTRA_NOTES.get(_k, "") + " " + _v).strip()
